@@ -61,19 +61,12 @@ theorem old_report_overwritten (analyse : World → Opts → Except String (List
 inert for the analysis (C16 `ineligible_inert` / `ineligible_cannot_fail`) -/
 theorem report_name_ineligible : eligible "solstat_report.md" = false := by decide
 
-/-- **effects inventory** (regenerated from all non-test sources on every run): the only write is
-`fs::write` in `generate_report`; everything else reads (`read_dir`, `read_to_string`) or exits -/
-theorem effects_complete : Gen.effectSites =
-    ["src/analyzer/optimizations/mod.rs::analyze_dir::fs::read_dir#0",
-     "src/analyzer/optimizations/mod.rs::analyze_dir::fs::read_to_string#0",
-     "src/analyzer/qa/mod.rs::analyze_dir::fs::read_dir#0",
-     "src/analyzer/qa/mod.rs::analyze_dir::fs::read_to_string#0",
-     "src/analyzer/vulnerabilities/mod.rs::analyze_dir::fs::read_dir#0",
-     "src/analyzer/vulnerabilities/mod.rs::analyze_dir::fs::read_to_string#0",
-     "src/opts.rs::new::Args::parse#0",
-     "src/opts.rs::new::fs::read_to_string#0",
-     "src/opts.rs::new::fs::read_dir#0",
-     "src/opts.rs::new::process::exit#0",
-     "src/report/generation.rs::generate_report::fs::write#0"] := by decide
+/-- calls that only read or exit -/
+def readOnlyCalls : List String := ["fs::read_dir", "fs::read_to_string", "fs::read", "fs::metadata", "Args::parse", "process::exit"]
+
+/-- **effects inventory** (regenerated from all non-test sources on every run, whatever function a call sits
+in): the only call that is not a read or an exit is the one `fs::write` in `src/report/generation.rs` -/
+theorem effects_complete :
+    Gen.effectCalls.filter (fun e => !readOnlyCalls.contains e.2) = [("src/report/generation.rs", "fs::write")] := by decide
 
 end Solstat
